@@ -32,6 +32,9 @@ type CandidatePair struct {
 	state                    CandidatePairState
 	nominated                bool
 	nominateOnBindingSuccess bool
+	// deferredNominationValue is the renomination value of the nomination that set
+	// nominateOnBindingSuccess, nil for a plain USE-CANDIDATE.
+	deferredNominationValue *uint32
 
 	// stats
 	currentRoundTripTime int64 // in ns
